@@ -1,5 +1,10 @@
 package c18skel
 
+import (
+	"go/types"
+	"strings"
+)
+
 // The declared tables of the translator.  Everything the translator assumes
 // about the program beyond its syntax is written here (and restated in
 // design.d/C18.md); the translator refuses ("shape changed") when the source
@@ -108,10 +113,27 @@ var freshCalls = map[string]bool{
 	"io.ReadAll":               true,
 }
 
-// External functions that write through an argument (index of the argument).
-var extWrites = map[string]int{
-	"slices.SortFunc": 0,
-	"sort.Slice":      0,
+// External functions that write through an argument (index of the argument):
+// everything in package sort and the reordering functions of package slices
+// rearrange their first argument in place.
+func extWriteArg(f *types.Func) (int, bool) {
+	if f.Pkg() == nil {
+		return 0, false
+	}
+	switch f.Pkg().Path() {
+	case "sort":
+		switch f.Name() {
+		case "Strings", "Ints", "Float64s", "Slice", "SliceStable", "Sort", "Stable":
+			return 0, true
+		}
+	case "slices":
+		for _, p := range []string{"Sort", "Reverse", "Compact", "Delete", "Insert", "Replace", "Grow", "Clip"} {
+			if strings.HasPrefix(f.Name(), p) {
+				return 0, true
+			}
+		}
+	}
+	return 0, false
 }
 
 // Synchronisation sites of the anchored files that belong to another
